@@ -78,6 +78,7 @@ type Op struct {
 // Query is one read that reaches through a relation.
 type Query struct {
 	// K: hf tf hor tor horder torder agg sub tfsub hopdown hopup hoprender cnthf cnttf;
+	// tfcnt = related-side documents filtered through the relation, selecting the COUNT of all their holders;
 	// hfid = holders filtered on the related document's _docID only (H(filter: {r: {_docID: {_eq: id}}})),
 	// id = document V of the related collection (modulo all ever created + 1, the extra one never existed)
 	K   string `json:"k"`
@@ -279,7 +280,7 @@ func drawLink(t *rapid.T, linkWeight, nullWeight int) Link {
 }
 
 func drawQuery(t *rapid.T, tp topoDef, c Case) Query {
-	kinds := []string{"hf", "hf", "tf", "tf", "tf", "hor", "tor", "horder", "horder", "torder", "torder", "agg", "agg", "sub", "tfsub", "cnthf", "cnttf", "hfid", "hfid"}
+	kinds := []string{"hf", "hf", "tf", "tf", "tf", "hor", "tor", "horder", "horder", "torder", "torder", "agg", "agg", "sub", "tfsub", "cnthf", "cnttf", "hfid", "hfid", "tfcnt", "tfcnt"}
 	if len(tp.Rels) > 1 {
 		kinds = append(kinds, "hopdown", "hopdown", "hopup", "hopup", "hoprender")
 	}
@@ -305,6 +306,9 @@ func drawQuery(t *rapid.T, tp topoDef, c Case) Query {
 		q.IDs = rapid.SliceOfN(rapid.IntRange(0, 6), 1, 3).Draw(t, "qids")
 	}
 	q.K = normalKind(q.K, tp, q.Rel)
+	if q.K == "tfcnt" && c.Avoid && rec.IsKnown(sigCountNextToFilter) {
+		q.K = "cnttf" // switch of the listed finding
+	}
 	constrainQuery(&q, tp, c)
 	q.K = normalKind(q.K, tp, q.Rel)
 	switch q.K {
@@ -436,7 +440,7 @@ func normalKind(kind string, tp topoDef, rel int) string {
 	}
 	if !r.Many {
 		switch kind {
-		case "agg", "sub", "tfsub":
+		case "agg", "sub", "tfsub", "tfcnt":
 			kind = "tf"
 		}
 	} else if kind == "torder" {
